@@ -309,6 +309,22 @@ def array_decoder(ctx, cm, rule, le, spec_rule=None):
         ctx.ob(rule, fi.qualname, 'end-check:' + tag, guard,
                'after the loop, a final offset different from the end bound '
                'must raise MarshallingError (return only when equal)')
+        # ... and ONLY then: once the elements have filled the declared
+        # length exactly, the array is what the encoder wrote - a path that
+        # still raises refuses an encoding the encoder produces
+        if end is not None:
+            sides = {strip_sites(post), strip_sites(end)}
+            late = [q for q in allp if q.outcome == 'raise' and any(
+                kind(c) == 'cmp' and c[1] in ('==', '!=') and
+                {strip_sites(c[2]), strip_sites(c[3])} == sides and
+                (c[1] == '==') == pol for c, pol in q.cond)]
+            ctx.ob(rule, fi.qualname, 'exact-fill-is-accepted:' + tag,
+                   not late,
+                   'the array decoder raises although the elements it read '
+                   'end exactly at the declared length [%s]: it refuses '
+                   'arrays the encoder writes' % ('; '.join(
+                       '%s is %s' % (term_str(c)[:60], pol)
+                       for c, pol in late[0].cond[-2:]) if late else ''))
         # reported size = final position - start
         ok = aff_eq(size, ('binop', '-', post, start), falsy)
         ctx.ob(rule, fi.qualname, 'size=advance:' + tag, ok,
